@@ -10,6 +10,9 @@ import NngModel.Proofs.SurveyRespPoll
 import NngModel.Proofs.SurveyRespQueue
 import NngModel.Proofs.SurveyRespWritable
 import NngModel.Proofs.RawSurvPoll
+import NngModel.Proofs.RespJudgeMain
+import NngModel.Proofs.SurvJudgeMain
+import NngModel.Proofs.RawJudgeMain
 import NngModel.Props.C13
 import NngModel.Spec.Survey
 import NngModel.Spec.RawSurvey
@@ -534,5 +537,210 @@ def xrespondDemo : List Ev :=
 
 example : (Xrespond.run {} xrespondDemo).1.delivered = [⟨[0, 0, 0, 2, 0x80, 0, 0, 1], [7]⟩] := by decide
 example : ((Xrespond.run {} xrespondDemo).1.pipes.map fun p => p.wired) = [[], [⟨[0x80, 0, 0, 1], [8]⟩]] := by decide
+
+/-! ## the judges accept every trace of the models
+
+  The C07 trace predicates (Spec/Survey.lean, Spec/RawSurvey.lean) are run on every implementation trace; here
+  they are proved to accept everything the models can do, so that a judge alarm on a trace that the model also
+  produces can only come from an event list outside the stated hypotheses.  Method: a relation between the
+  model's state and the judge's state, kept by one model step followed by the judge's step on the model's outputs
+  (Proofs/RespJudge*.lean), induction over the event list. -/
+
+/-- RESPONDENT: `respJudge` accepts the trace of `Respond.run` on every event list whose `send` bodies are
+    pairwise distinct (the judge identifies a response on the wire by its body) and which contains no
+    `abort <aio> 0` (a harness-only completion "success" of a parked operation).  Nothing else is assumed:
+    any interleaving of contexts, timers, cancels, malformed / over-long surveys, pipe loss, `poll` followed by
+    non-blocking calls, re-opened context slots (the model refuses an occupied slot), zero-timeout sends (F8),
+    and the recorded "polls writable, send refused with NNG_ESTATE" situation are covered. -/
+theorem respondent_judge_accepts_model (evs : List Ev) (hb : (RespJudge.sendBodies evs).Nodup)
+    (hab : RespJudge.NoAbort0 evs) :
+    SurveySpec.respJudge (evs.zip (Respond.run {} evs).2) = none :=
+  RespJudge.resp_judge_accepts_model evs hb hab
+
+/-- the unconditional form — kept as a definition because it is false -/
+def respondent_judge_accepts_model_statement : Prop :=
+  ∀ evs : List Ev, SurveySpec.respJudge (evs.zip (Respond.run {} evs).2) = none
+
+/-- hypothesis 1 is needed: with `abort 0 0` on a parked receive (distinct bodies hold trivially) the judge says
+    "receive 0 succeeded without a message" -/
+theorem respondent_judge_needs_no_abort0 :
+    (RespJudge.sendBodies RespJudge.abort0Evs).Nodup ∧
+    SurveySpec.respJudge (RespJudge.abort0Evs.zip (Respond.run {} RespJudge.abort0Evs).2) ≠ none :=
+  RespJudge.needs_no_abort0
+
+/-- hypothesis 2 is needed: two responses with the same body, the first parked behind a busy pipe, the second handed
+    to another pipe at once (no `abort` at all): "response of send 3 went to pipe 1, but the survey last received
+    came from pipe 0" -/
+theorem respondent_judge_needs_distinct_bodies :
+    RespJudge.NoAbort0 RespJudge.dupBodyEvs ∧
+    SurveySpec.respJudge (RespJudge.dupBodyEvs.zip (Respond.run {} RespJudge.dupBodyEvs).2) ≠ none :=
+  RespJudge.needs_distinct_bodies
+
+theorem respondent_judge_needs_hypotheses : ¬ respondent_judge_accepts_model_statement :=
+  fun h => RespJudge.needs_no_abort0.2 (h _)
+
+/-- non-vacuity: a 28-event run (two pipes, a context, direct and parked responses, the writable-but-ESTATE
+    observation, timeout, cancel, malformed and over-long surveys, ttl change, F8, context close, pipe loss,
+    close) meets the hypotheses and is accepted through the theorem -/
+example : (RespJudge.sendBodies RespJudge.demoEvs).Nodup ∧ RespJudge.NoAbort0 RespJudge.demoEvs ∧
+    SurveySpec.respJudge (RespJudge.demoEvs.zip (Respond.run {} RespJudge.demoEvs).2) = none :=
+  ⟨by decide, by decide, RespJudge.demo_accepted⟩
+
+/-! ### JUDGE (SURVEYOR) — the executable specification accepts every trace of the cooked SURVEYOR model
+    (proof: Proofs/SurvJudge*.lean; needs `import NngModel.Proofs.SurvJudgeMain` among the imports of this file).
+    The judge is the corrected one: a delivery to a parked receive is accepted at the deadline instant itself, and a
+    response that arrives while 128 responses to its (known) survey are waiting is not counted. -/
+
+/-- JUDGE (SURVEYOR): for every event sequence the trace of the model `Model/Survey.lean` is accepted by the executable
+    trace predicate `survJudge` (Spec/Survey.lean) — the predicate the check runs on every trace of the implementation.
+    Hypotheses, each needed (`surv_judge_needs_*` below; the bound on the number of surveys cannot be shown by `decide`):
+    * survey bodies pairwise distinct (the judge identifies surveys by their bodies);
+    * at most 2^31 surveys (`idSpan` = size of the id range): then `nni_id_alloc` wraps, ids repeat, the judge wants fresh ids;
+    * no `abort aio 0` (harness-only: a parked receive "succeeds" without a message);
+    * `NoBlindOverflow`: when a response is dropped on a full receive queue (depth 128), the judge knows the id of that
+      survey — the survey has been handed to a pipe or a response to it has been delivered (implied by `NoOverflow`,
+      which holds e.g. when the transport delivers at most 128 messages). -/
+theorem surv_judge_accepts_model (evs : List Ev)
+    (hb : (Nng.SurvProofs.sendBodies evs).Nodup) (hn : (Nng.SurvProofs.sendBodies evs).length ≤ Nng.Survey.idSpan)
+    (ha : Nng.SurvProofs.NoAbort0 evs) (ho : Nng.SurvProofs.NoBlindOverflow evs) :
+    Nng.SurveySpec.survJudge (evs.zip (Nng.Survey.run {} evs).2) = none :=
+  Nng.SurvProofs.surv_judge_accepts_model evs hb hn ha ho
+
+/-- the same with the number of events bounded instead of the number of surveys -/
+theorem surv_judge_accepts_model_short (evs : List Ev) (hb : (Nng.SurvProofs.sendBodies evs).Nodup)
+    (hn : evs.length ≤ 2147483648) (ha : Nng.SurvProofs.NoAbort0 evs) (ho : Nng.SurvProofs.NoBlindOverflow evs) :
+    Nng.SurveySpec.survJudge (evs.zip (Nng.Survey.run {} evs).2) = none :=
+  Nng.SurvProofs.surv_judge_accepts_model_short evs hb hn ha ho
+
+/-- no overflow at all implies `NoBlindOverflow`; at most 128 messages from the transport imply no overflow -/
+theorem surv_judge_no_blind_overflow_of_few_arrivals (evs : List Ev) (h : Nng.SurvProofs.arrivalCount evs ≤ 128) :
+    Nng.SurvProofs.NoBlindOverflow evs :=
+  Nng.SurvProofs.noBlindOverflow_of_noOverflow evs (Nng.SurvProofs.noOverflow_of_few_arrivals evs h)
+
+/-- the judge's queue depth is the one extracted from survey.c -/
+theorem surv_judge_depth : Nng.SurveySpec.survRecvDepth = Nng.Generated.survRecvBufInit :=
+  Nng.SurvProofs.surv_judge_depth
+
+/-- two surveys with the same body: "one survey went out with two different ids" -/
+theorem surv_judge_needs_distinct_bodies :
+    (Nng.SurvProofs.sendBodies Nng.SurvProofs.cexSameBody).length ≤ Nng.Survey.idSpan ∧
+    Nng.SurvProofs.NoAbort0 Nng.SurvProofs.cexSameBody ∧ Nng.SurvProofs.NoBlindOverflow Nng.SurvProofs.cexSameBody ∧
+    (Nng.SurveySpec.survJudge (Nng.SurvProofs.cexSameBody.zip (Nng.Survey.run {} Nng.SurvProofs.cexSameBody).2)).isSome = true :=
+  Nng.SurvProofs.surv_judge_needs_distinct_bodies
+
+/-- `abort aio 0`: "receive succeeded without a message" -/
+theorem surv_judge_needs_no_abort0 :
+    (Nng.SurvProofs.sendBodies Nng.SurvProofs.cexAbort0).Nodup ∧
+    (Nng.SurvProofs.sendBodies Nng.SurvProofs.cexAbort0).length ≤ Nng.Survey.idSpan ∧
+    Nng.SurvProofs.NoBlindOverflow Nng.SurvProofs.cexAbort0 ∧
+    (Nng.SurveySpec.survJudge (Nng.SurvProofs.cexAbort0.zip (Nng.Survey.run {} Nng.SurvProofs.cexAbort0).2)).isSome = true :=
+  Nng.SurvProofs.surv_judge_needs_no_abort0
+
+/-- the remaining corner of the queue-depth clause: a survey sent before any pipe existed (so never on a wire) is
+    answered 129 times with its exact id; 128 are kept, one dropped; 129 receives — the judge, which learns ids only from
+    wires and deliveries, still reports "kept waiting although a response to its survey has arrived" -/
+theorem surv_judge_needs_no_blind_overflow :
+    (Nng.SurvProofs.sendBodies Nng.SurvProofs.cexBlind).Nodup ∧
+    (Nng.SurvProofs.sendBodies Nng.SurvProofs.cexBlind).length ≤ Nng.Survey.idSpan ∧
+    Nng.SurvProofs.NoAbort0 Nng.SurvProofs.cexBlind ∧
+    (Nng.SurveySpec.survJudge (Nng.SurvProofs.cexBlind.zip (Nng.Survey.run {} Nng.SurvProofs.cexBlind).2)).isSome = true :=
+  Nng.SurvProofs.surv_judge_needs_no_blind_overflow
+
+/-- former finding 1, now accepted: open; pipe_add; send (survey time 1000); recv inf (parked); advance 1000; a response
+    arrives exactly at the deadline and is handed to the parked receive (as survey.c does) -/
+theorem surv_judge_accepts_deadline_instant_example :
+    (Nng.Survey.run {} Nng.SurvProofs.cexDeadlineInstant).2.getLast? =
+      some [.rv 0, .done 1 0 (some ⟨[0x80, 0, 0, 0], [9]⟩) false, .parm 0] ∧
+    Nng.SurveySpec.survJudge (Nng.SurvProofs.cexDeadlineInstant.zip (Nng.Survey.run {} Nng.SurvProofs.cexDeadlineInstant).2) = none :=
+  Nng.SurvProofs.surv_judge_accepts_deadline_instant_example
+
+/-- … while a NEW receive at the deadline instant must still fail with NNG_ESTATE: the model does, the judge accepts that
+    and rejects the same trace with a delivery instead -/
+theorem surv_judge_estate_at_deadline_example :
+    (Nng.Survey.run {} Nng.SurvProofs.exEstateAtDeadline).2.getLast? = some [.done 1 Err.estate none false] ∧
+    Nng.SurveySpec.survJudge (Nng.SurvProofs.exEstateAtDeadline.zip (Nng.Survey.run {} Nng.SurvProofs.exEstateAtDeadline).2) = none ∧
+    (Nng.SurveySpec.survJudge (Nng.SurvProofs.exEstateAtDeadline.zip
+      ((Nng.Survey.run {} Nng.SurvProofs.exEstateAtDeadline).2.dropLast ++ [[.done 1 0 (some ⟨[0x80, 0, 0, 0], [9]⟩) false]]))).isSome = true :=
+  Nng.SurvProofs.surv_judge_estate_at_deadline_example
+
+/-- former finding 2, now accepted: 129 responses to a (wired) survey before any receive, then 129 receives: a response is
+    dropped (`¬ NoOverflow`), the judge knows the survey (`NoBlindOverflow`) and accepts the trace -/
+theorem surv_judge_accepts_overflow_example :
+    ¬ Nng.SurvProofs.NoOverflow Nng.SurvProofs.cexOverflow ∧ Nng.SurvProofs.NoBlindOverflow Nng.SurvProofs.cexOverflow ∧
+    Nng.SurveySpec.survJudge (Nng.SurvProofs.cexOverflow.zip (Nng.Survey.run {} Nng.SurvProofs.cexOverflow).2) = none :=
+  Nng.SurvProofs.surv_judge_accepts_overflow_example
+
+/-- non-vacuity: the hypotheses hold for `SurvProofs.demo` (24 events: two contexts, two pipes, a survey queued behind a busy
+    pipe, delivery to a parked receive and from the queue, poll, cancel, abort, a timeout when `advance` passes the deadline, ESTATE,
+    ctx_close, close) and its trace is accepted through the theorem -/
+theorem surv_judge_demo :
+    ((Nng.SurvProofs.sendBodies Nng.SurvProofs.demo).Nodup ∧
+     (Nng.SurvProofs.sendBodies Nng.SurvProofs.demo).length ≤ Nng.Survey.idSpan ∧ Nng.SurvProofs.NoAbort0 Nng.SurvProofs.demo ∧
+     Nng.SurvProofs.NoBlindOverflow Nng.SurvProofs.demo) ∧
+    (((Nng.Survey.run {} Nng.SurvProofs.demo).1.delivered.map fun d => (d.aio, d.direct)) = [(2, false), (4, true)]) ∧
+    Nng.SurveySpec.survJudge (Nng.SurvProofs.demo.zip (Nng.Survey.run {} Nng.SurvProofs.demo).2) = none :=
+  ⟨Nng.SurvProofs.demo_hyps, Nng.SurvProofs.demo_run.1, Nng.SurvProofs.demo_accepted⟩
+
+/-! ### raw mode: the raw judges accept every trace of the raw models (Proofs/RawJudge*.lean) -/
+
+/-- JX: the raw SURVEYOR judge (`Spec/RawSurvey.lean`, clauses X1–X2, Z1–Z4) accepts every trace of the raw
+    SURVEYOR model, for all event lists with no harness-only `abort a 0`, pairwise distinct bodies of the
+    messages taken from senders and pairwise distinct payloads of the well-formed arrivals -/
+theorem xsurvey_judge_accepts_model (evs : List Ev) (hn : NoAbort0 evs) (hs : SentDistinct Xsurvey.kind evs)
+    (ha : ArrivalsDistinct Xsurvey.kind evs) :
+    Nng.RawSurveySpec.xsurveyJudge (evs.zip (Xsurvey.run {} evs).2) = none :=
+  Xsurvey.xsurvey_judge_accepts_model evs hn hs ha
+
+/-- JY: the same for the raw RESPONDENT judge (Y1–Y2, Z1–Z4) and model -/
+theorem xrespond_judge_accepts_model (evs : List Ev) (hn : NoAbort0 evs) (hs : SentDistinct Xrespond.kind evs)
+    (ha : ArrivalsDistinct Xrespond.kind evs) :
+    Nng.RawSurveySpec.xrespondJudge (evs.zip (Xrespond.run {} evs).2) = none :=
+  Xrespond.xrespond_judge_accepts_model evs hn hs ha
+
+/-- both, with event-level hypotheses only: no `abort a 0`, the bodies of all `send -` events pairwise distinct, the
+    payloads of all `recv_done` events (what follows the first word with the high bit) pairwise distinct -/
+theorem raw_judges_accept_models_events (evs : List Ev) (hn : NoAbort0 evs) (hs : (sendBodies evs).Nodup)
+    (ha : (arrivalPayloads evs).Nodup) :
+    Nng.RawSurveySpec.xsurveyJudge (evs.zip (Xsurvey.run {} evs).2) = none ∧
+    Nng.RawSurveySpec.xrespondJudge (evs.zip (Xrespond.run {} evs).2) = none :=
+  ⟨Xsurvey.xsurvey_judge_accepts_model_events evs hn hs ha, Xrespond.xrespond_judge_accepts_model_events evs hn hs ha⟩
+
+/-- each hypothesis is needed (an event list violating only that one, rejected by the judge), so the
+    unconditional statements are false -/
+theorem raw_judges_need_hypotheses :
+    (¬ NoAbort0 Xsurvey.needAbort ∧ SentDistinct Xsurvey.kind Xsurvey.needAbort ∧ ArrivalsDistinct Xsurvey.kind Xsurvey.needAbort ∧
+      Nng.RawSurveySpec.xsurveyJudge (Xsurvey.needAbort.zip (Xsurvey.run {} Xsurvey.needAbort).2) ≠ none) ∧
+    (NoAbort0 Xsurvey.needBodies ∧ ¬ SentDistinct Xsurvey.kind Xsurvey.needBodies ∧ ArrivalsDistinct Xsurvey.kind Xsurvey.needBodies ∧
+      Nng.RawSurveySpec.xsurveyJudge (Xsurvey.needBodies.zip (Xsurvey.run {} Xsurvey.needBodies).2) ≠ none) ∧
+    (NoAbort0 Xsurvey.needArrivals ∧ SentDistinct Xsurvey.kind Xsurvey.needArrivals ∧ ¬ ArrivalsDistinct Xsurvey.kind Xsurvey.needArrivals ∧
+      Nng.RawSurveySpec.xsurveyJudge (Xsurvey.needArrivals.zip (Xsurvey.run {} Xsurvey.needArrivals).2) ≠ none) ∧
+    (¬ NoAbort0 Xrespond.needAbort ∧ SentDistinct Xrespond.kind Xrespond.needAbort ∧ ArrivalsDistinct Xrespond.kind Xrespond.needAbort ∧
+      Nng.RawSurveySpec.xrespondJudge (Xrespond.needAbort.zip (Xrespond.run {} Xrespond.needAbort).2) ≠ none) ∧
+    (NoAbort0 Xrespond.needBodies ∧ ¬ SentDistinct Xrespond.kind Xrespond.needBodies ∧ ArrivalsDistinct Xrespond.kind Xrespond.needBodies ∧
+      Nng.RawSurveySpec.xrespondJudge (Xrespond.needBodies.zip (Xrespond.run {} Xrespond.needBodies).2) ≠ none) ∧
+    (NoAbort0 Xrespond.needArrivals ∧ SentDistinct Xrespond.kind Xrespond.needArrivals ∧ ¬ ArrivalsDistinct Xrespond.kind Xrespond.needArrivals ∧
+      Nng.RawSurveySpec.xrespondJudge (Xrespond.needArrivals.zip (Xrespond.run {} Xrespond.needArrivals).2) ≠ none) ∧
+    ¬ Xsurvey.xsurvey_judge_accepts_model_statement ∧ ¬ Xrespond.xrespond_judge_accepts_model_statement :=
+  ⟨Xsurvey.xsurvey_judge_needs_no_abort0, Xsurvey.xsurvey_judge_needs_distinct_bodies, Xsurvey.xsurvey_judge_needs_distinct_arrivals,
+   Xrespond.xrespond_judge_needs_no_abort0, Xrespond.xrespond_judge_needs_distinct_bodies, Xrespond.xrespond_judge_needs_distinct_arrivals,
+   Xsurvey.xsurvey_judge_needs_hypotheses, Xrespond.xrespond_judge_needs_hypotheses⟩
+
+/-- the judges' acceptance set is the models' (`takes` ⇔ `offer` keeps the message: idle → wire, room → queue,
+    full → dropped), in every reachable open state, for every connected pipe -/
+theorem raw_judge_takes_iff_offer_keeps (evs : List Ev) (hn : NoAbort0 evs) (q : Nat) (pp : Pipe) (m : WMsg) (hc : pp.closed = false) :
+    (SentDistinct Xsurvey.kind evs → ArrivalsDistinct Xsurvey.kind evs → (Xsurvey.run {} evs).1.closed = false →
+      (Xsurvey.run {} evs).1.pipes[q]? = some pp →
+      (Nng.RawSurveySpec.takes false (judgeAfter false Xsurvey.kind evs) q = true ↔ (offer q pp m).1.dropped = pp.dropped)) ∧
+    (SentDistinct Xrespond.kind evs → ArrivalsDistinct Xrespond.kind evs → (Xrespond.run {} evs).1.closed = false →
+      (Xrespond.run {} evs).1.pipes[q]? = some pp →
+      (Nng.RawSurveySpec.takes true (judgeAfter true Xrespond.kind evs) q = true ↔ (offer q pp m).1.dropped = pp.dropped)) :=
+  ⟨fun hs ha hcl hg => raw_takes_iff_kept Xsurvey.jk evs hn hs ha hcl q pp m hg hc,
+   fun hs ha hcl hg => raw_takes_iff_kept Xrespond.jk evs hn hs ha hcl q pp m hg hc⟩
+
+/-- non-vacuity: the demo runs of Proofs/RawJudgeMain.lean (3 pipes, flood with queue-full drops, parked and
+    timed receives, malformed / over-limit arrivals, cancel, abort, pipe drop, poll, close) meet the hypotheses -/
+example : NoAbort0 Xsurvey.demo ∧ (sendBodies Xsurvey.demo).Nodup ∧ (arrivalPayloads Xsurvey.demo).Nodup ∧
+    NoAbort0 Xrespond.demo ∧ (sendBodies Xrespond.demo).Nodup ∧ (arrivalPayloads Xrespond.demo).Nodup := by decide
+
 
 end Nng.C07
